@@ -80,7 +80,15 @@ func PmtAccumulatorDoneFunc(b []byte) (bool, error) {
 	}
 
 	sectionBytes := b[start:]
-	for len(sectionBytes) > 2 && sectionBytes[0] != 0xFF {
+	if len(sectionBytes) == 0 {
+		// nothing but the pointer field and its filler so far
+		return false, nil
+	}
+	for len(sectionBytes) > 0 && sectionBytes[0] != 0xFF {
+		if len(sectionBytes) < 3 {
+			// the section header is not complete yet
+			return false, nil
+		}
 		tableLength := sectionLength(sectionBytes)
 		if len(sectionBytes) < int(tableLength)+3 {
 			return false, nil
